@@ -269,7 +269,8 @@ class GRelay(Relay):
             lst.extend(pos)
             c.log(t='att_end', id=sid, kind='raise' + out[0], rcpts=list(pos), ok=[], perm=perm, temp=temp, rid=[rid] * n, now=c.now())
             cls = TransientRelayError if out[0] == 'T' else PermanentRelayError
-            raise cls('rid%d' % rid, Reply('450' if out[0] == 'T' else '550', ('4.0.0' if out[0] == 'T' else '5.0.0') + ' rid%d' % rid))
+            # (replies with an enhanced status code of their own, not the class default x.0.0: a bounce quotes the reply it is about)
+            raise cls('rid%d' % rid, Reply('450' if out[0] == 'T' else '550', ('4.2.1' if out[0] == 'T' else '5.1.1') + ' rid%d' % rid))
         if out == 'X':
             c.log(t='att_end', id=sid, kind='raiseX', rcpts=list(pos), ok=[], perm=[], temp=list(pos), rid=[0] * n, now=c.now())
             raise ValueError('boom')
@@ -285,11 +286,11 @@ class GRelay(Relay):
                 rids[p] = 0
             elif ch == 't':
                 temp.append(p)
-                res.append(TransientRelayError('rid%d' % rid, Reply('450', '4.0.0 rid%d' % rid)))
+                res.append(TransientRelayError('rid%d' % rid, Reply('450', '4.2.1 rid%d' % rid)))
                 rids[p] = rid
             else:
                 perm.append(p)
-                res.append(PermanentRelayError('rid%d' % rid, Reply('550', '5.0.0 rid%d' % rid)))
+                res.append(PermanentRelayError('rid%d' % rid, Reply('550', '5.1.1 rid%d' % rid)))
                 rids[p] = rid
         c.log(t='att_end', id=sid, kind=kind, rcpts=list(pos), ok=ok, perm=perm, temp=temp, rid=[rids[p] for p in pos], now=c.now())
         if kind == 'seq':
@@ -448,7 +449,11 @@ class Scenario(object):
                 whole = hdr + body
                 c.log(t='bounce_enq', id=m, rcpts=pos, rid=rid_of(reply),
                       to_ok=list(env.recipients) == [orig.sender], sender_empty=not env.sender,
-                      quotes_reply=(reply.message or '').encode() in whole and reply.code.encode() in whole,
+                      # the reply the relay gave (scripted: code, enhanced status code and text are known from its number), not
+                      # merely the reply object the queue handed to the bounce factory
+                      quotes_reply=((reply.message or '').encode() in whole and reply.code.encode() in whole and
+                                    (not re.fullmatch(r'[45]\.\d+\.\d+ rid\d+( \(Too many retries\))*', reply.message or '') or
+                                     (('%s rid%d' % ('4.2.1' if reply.code.startswith('4') else '5.1.1', rid_of(reply))).encode() in whole))),
                       has_headers=ohdr.rstrip(b'\r\n') in whole,
                       has_body=(obody in whole), headers_only=bool(cfg.get('headers_only', False)),
                       names=all(a.encode() in whole for a in env_rcpts(orig)), via=via, want=want, now=c.now())
